@@ -291,7 +291,7 @@ func init() {
 			"well-formedness is exactly the statement's precondition; optional elements carry the table identifier in Iei (type-1: in the octet's high nibble)",
 			"bounds come from spec/messages.json",
 		},
-		Oracles: map[string]func(*core.Ctx, *core.Case){"roundtrip": c02Roundtrip, "batch": c02Batch},
+		Oracles: map[string]func(*core.Ctx, *core.Case){"roundtrip": c02Roundtrip, "batch": c02Batch, "cold-concurrent": coldConcurrent},
 	}
 	p.Floors = func(tier string, cov map[string]map[string]int64, cnt map[string]int64) []string {
 		sp, err := codecSpec()
@@ -470,6 +470,7 @@ func init() {
 		}
 		us = append(us, domainUnits(sp, sp.Messages, tier, 30, wellFormed)...)
 		us = append(us, bigUnits(sp.Messages, tier, 80, wellFormed)...)
+		us = append(us, coldUnit("nas.Message", "encode", "decode"))
 		return us
 	}
 	core.Register(p)
@@ -543,7 +544,7 @@ func init() {
 		Assumptions: []string{
 			"canonicity is known from the generator (known elements only, each once, in table order, lengths in bounds), never inferred from the library",
 		},
-		Oracles: map[string]func(*core.Ctx, *core.Case){"fixedpoint": c03FixedPoint, "receive-buffer": c03ReceiveBuffer},
+		Oracles: map[string]func(*core.Ctx, *core.Case){"fixedpoint": c03FixedPoint, "receive-buffer": c03ReceiveBuffer, "cold-concurrent": coldConcurrent},
 	}
 	p.Floors = func(tier string, cov map[string]map[string]int64, cnt map[string]int64) []string {
 		sp, err := codecSpec()
@@ -601,6 +602,7 @@ func init() {
 			}})
 		}
 		us = append(us, reuseUnits(sp, "receive-buffer", 40, 800)...)
+		us = append(us, coldUnit("nas.Message", "decode"))
 		us = append(us, bigUnits(msgs, tier, 60, func(c *core.Ctx, d *domainPDU, i int) {
 			k := &core.Case{Oracle: "fixedpoint", Target: "nas.Message.PlainNasDecode", B: [][]byte{d.B}, I: []int64{b2i(d.Canon)}}
 			c.Do(k)
